@@ -335,8 +335,12 @@ class Ledger(object):
             dly = pol.get("delay")
             if dly is not None and not isinstance(dly, int):
                 dly = lang.eval_value(dly, None, vals)
+            if not isinstance(cnt, int) or isinstance(cnt, bool) or (dly is not None and (not isinstance(dly, int) or isinstance(dly, bool))):
+                return ("fault", None, None)     # a value of the wrong type: the engine rejects it
             if x.attempt - 1 >= cnt:
                 return (False, cnt, dly)
+            if status not in ("succeeded", "failed"):
+                return (False, cnt, dly)         # only a succeeded or failed execution can be retried
             if pol.get("when") is None:
                 ok = status == "failed"
             else:
